@@ -85,7 +85,9 @@ fn main() {
                 .or_else(|| std::env::var("VERIF_SEED").ok())
                 .and_then(|s| s.parse().ok())
                 .unwrap_or(runner::DEFAULT_SEED);
-            let runs = arg_after(&args, "--runs").and_then(|s| s.parse().ok()).unwrap_or_else(|| checks::runs_for(&check, tier));
+            // (--runs-div N: the tier's number of runs divided by N — a triage aid for trying many seeded changes)
+            let div: u64 = arg_after(&args, "--runs-div").and_then(|s| s.parse().ok()).unwrap_or(1).max(1);
+            let runs = arg_after(&args, "--runs").and_then(|s| s.parse().ok()).unwrap_or_else(|| (checks::runs_for(&check, tier) / div).max(if checks::runs_for(&check, tier) > 0 { 16 } else { 0 }));
             let workers = arg_after(&args, "--workers").and_then(|s| s.parse().ok()).unwrap_or(16);
             if runs == 0 {
                 eprintln!("unknown check {check}");
